@@ -1039,6 +1039,50 @@ def subst(s: S, mapping: dict) -> S:
     return Sigma(raw_subst=mapping).apply(s)
 
 
+def fold_sums(block: tuple) -> tuple:
+    """Accumulator recognition: ``acc = init; ...; for v in it: acc += e`` (the whole loop body being such additions to
+    distinct locals that neither the addends nor the statements in between mention) becomes
+    ``acc = init + sum(e for v in it)`` at the position of the loop, the form the comprehension spelling of the same
+    computation has.  Loops of any other shape are left alone."""
+    out: list = []
+    for st in block:
+        if not isinstance(st, tuple) or not st:
+            out.append(st)
+            continue
+        if st[0] == "for" and len(st) == 5 and not st[4] and isinstance(st[1], tuple) and st[1][:1] == ("v",) and st[3]:
+            body = st[3]
+            accs = [b[2] for b in body if isinstance(b, tuple) and b[:2] == ("aug", "Add")]
+            simple = (len(accs) == len(body) and len(set(accs)) == len(accs) and all(isinstance(a, tuple) and a[:1] == ("v",) for a in accs)
+                      and not any(contains(b[3], a) for b in body for a in accs)
+                      and not any(atoms_of(b[3], lambda x: x[0] == "comp") for b in body)
+                      and not any(contains(st[2], a) for a in accs))
+            if simple:
+                inits = {}
+                for a in accs:
+                    for i in range(len(out) - 1, -1, -1):
+                        o = out[i]
+                        if o is not None and contains(o, a):
+                            if isinstance(o, tuple) and o[:2] == ("set", a) and not contains(o[2], a):
+                                inits[a] = i
+                            break
+                if len(inits) == len(accs):
+                    b0 = ("b", 1, 0)
+                    for b in body:
+                        i = inits[b[2]]
+                        elt = subst(b[3], {st[1]: b0})
+                        total = ("c", ("g", "sum"), (("comp", "gen", (elt,), ((b0, st[2], K_TRUE),)),), ())
+                        init = out[i][2]
+                        out[i] = None
+                        out.append(("set", b[2], (to_poly(init) + to_poly(total)).to_s()))
+                    continue
+        if st[0] == "if" and len(st) == 4:
+            st = ("if", st[1], fold_sums(st[2]), fold_sums(st[3]))
+        elif st[0] in ("for", "while") and len(st) in (4, 5):
+            st = st[:-2] + (fold_sums(st[-2]), fold_sums(st[-1]))
+        out.append(st)
+    return tuple(o for o in out if o is not None)
+
+
 def atoms_of(s: S, pred: Callable[[S], bool]) -> list[S]:
     out = []
 
